@@ -197,14 +197,14 @@ def lemma_task(task):
 
 
 def main():
-    rep = Report(PID, 'translation_validation', 'symbolic execution of the emitted library routines (z3): full-width decimal specification at 16/24 bit, per-iteration lemmas on the real routine at 32/64 bit')
+    rep = Report(PID, 'translation_validation', 'symbolic execution of the emitted library routines (z3): full-width decimal specification at 16 bit, per-iteration lemmas on the real routine at 24/32/64 bit')
     quick = rep.tier == 'quick'
     lens = [0, 1, 2, 3, 8] if quick else [0, 1, 2, 3, 5, 8, 16, 33, 64]
     tasks = []
     for c in write_templates(2, lens, True):
         tasks.append(case_to_task(c.with_(stack=120), max_steps=40000 if 'long' in c.name else 20000, vm_wall=300, ri_max_loop=400 if 'long' in c.name else 64))
     for W in ([3, 4] if quick else [3, 4, 8]):
-        for c in write_templates(W, lens[:4] if quick else lens, sym_int=(W == 3 and not quick)):
+        for c in write_templates(W, lens[:4] if quick else lens, sym_int=False):        # the whole-word symbolic write(int) does not bit-blast above 16 bits (solver unknown after 40 min at 24 bit): lemmas + boundary constants instead
             tasks.append(case_to_task(c.with_(stack=120), max_steps=20000, vm_wall=1500 if not quick else 300))
     run_tasks(rep, tasks, limit=2400)
     # "none of them disturbs the caller's variables or arrays": the write templates of the allocation family at every
@@ -224,11 +224,11 @@ def main():
     rep.cov['stack_sizes_explored_for_caller_state'] = nsz[0]
     ltasks = [dict(W=W, name='lemmas-w%d' % W) for W in ([2, 4] if quick else [2, 3, 4, 8])]
     run_tasks(rep, ltasks, worker=lemma_task, limit=1200)
-    rep.rule = ('write(int) with the whole word symbolic (16 bit; 24 bit thorough), boundary constants at every word size, write(bool/byte/string/const+mutable+converted byte arrays) with symbolic contents of '
+    rep.rule = ('write(int) with the whole word symbolic (16 bit), boundary constants at every word size, write(bool/byte/string/const+mutable+converted byte arrays) with symbolic contents of '
                 'lengths %s, writeln variants, caller-state templates; lemma tasks = prologue / one digit-loop iteration / epilogue of the real write_int from symbolic states' % lens)
     rep.functions_encoded = ['stdlib.py: write_int, write_bool, write_string, write_const_byte_array, write_state_byte_array (as emitted text); generator.py: inlined write(byte)/writeln, dispatch by array storage']
-    rep.bounds = dict(full_width_symbolic='16 bit (24 bit in thorough)', lemma_word_sizes=[t['W'] for t in ltasks], array_lengths=lens, stack_words=120,
-                      outside='at 32/64 bit the composition of the three lemmas over the <= 20 loop iterations is an induction on paper; C04 covers every stack size')
+    rep.bounds = dict(full_width_symbolic='16 bit', lemma_word_sizes=[t['W'] for t in ltasks], array_lengths=lens, stack_words=120,
+                      outside='at 24/32/64 bit the composition of the three lemmas over the <= 20 loop iterations is an induction on paper; C04 covers every stack size')
     rep.assumptions = ['Sphinx machine model (DESIGN section 3); div/mod by the positive constant 10 on non-negative values does not depend on the rounding assumption']
     return rep.finish()
 
